@@ -548,3 +548,110 @@ def gen_checklost(rng):
     h2 = dict(h, steps=steps)
     h2["tags"] = ["checklost"]
     return h2
+
+
+# ------------------------------------------------------------------------------------------------
+# C14: commands that break the condition their own check tests, multi-line expected outputs with extra lines,
+#      no-cache leaves that do not create a declared output
+# ------------------------------------------------------------------------------------------------
+
+def is_leaf(ws, l):
+    """nothing (no target, no alias) depends on l"""
+    return not any(l in H.rdeps(ws, y) for y in ws["targets"]) and not any(H.resolve_alias(ws, a) == l for a in ws["aliases"])
+
+
+def gen_post(rng, minimal=False):
+    """output checks with multi-line `expected_output`; the checked state gains an extra line (from outside, or written by the
+    target's own command); a target that runs for another reason (edited command, taint, no-cache) while its checks pass
+    beforehand and whose command itself breaks the checked condition; a no-cache target nobody depends on whose command stops
+    creating one of its declared outputs"""
+    ws = H.gen_ws(rng, n=rng.randint(2, 4), split_p=0.0, shared_p=0.0, outless_p=0.0, link_p=0.0)
+    for l in order_of(ws):
+        t = ws["targets"][l]
+        t["nocache"] = False
+        if rng.random() < 0.75:
+            flag = "ext/%s.flag" % t["name"]
+            exp = rng.choice(["ok\n", "status: ready\nreplicas: 3\n", "a\nb\nc\n"])
+            t["checks"] = [{"flag": flag, "exp": exp, "form": rng.randint(0, 5)}]
+            if rng.random() < 0.5:
+                t["sets"] = [[flag, exp]]
+            else:
+                ws["files"][flag] = exp
+    if not any(t["checks"] and not t["sets"] for t in ws["targets"].values()):
+        l = order_of(ws)[0]
+        t = ws["targets"][l]
+        flag = "ext/%s.flag" % t["name"]
+        t["checks"] = [{"flag": flag, "exp": "status: ready\nreplicas: 3\n", "form": rng.randint(0, 5)}]
+        t["sets"] = []
+        ws["files"][flag] = "status: ready\nreplicas: 3\n"
+    steps = [bstep(minimal)]
+    if rng.random() < 0.5:
+        steps.append(bstep(minimal))
+    cur = ws
+
+    def pats(l):
+        return [l] if rng.random() < 0.4 else ["//..."]
+    for _ in range(rng.randint(2, 4)):
+        r = rng.random()
+        checked = [l for l in order_of(cur) if cur["targets"][l]["checks"]]
+        external = [l for l in checked if not cur["targets"][l]["sets"]]
+        if r < 0.35 and checked:
+            # the checked state gains a line: the check must fail now
+            l = rng.choice(checked)
+            c = cur["targets"][l]["checks"][0]
+            more = c["exp"] + rng.choice(["degraded: true\n", "x\n", "warning: rollback in progress\n"])
+            if l in external:
+                w2 = copy.deepcopy(cur)
+                w2["files"][c["flag"]] = more
+                steps.append(estep(w2, "external condition %s gains a line (spoil)" % c["flag"]))
+                steps.append(bstep(minimal, patterns=pats(l)))
+                steps.append(estep(cur, "establish external condition %s" % c["flag"]))
+                steps.append(bstep(minimal))
+            else:
+                steps.append(estep(cur, "external condition %s gains a line (spoil; raw)" % c["flag"], [[c["flag"], more]]))
+                steps.append(bstep(minimal, patterns=pats(l)))
+                if rng.random() < 0.5:
+                    steps.append(bstep(minimal))
+        elif r < 0.7 and external:
+            # the command breaks the condition its own check tests; it runs because its command changed / it is tainted
+            l = rng.choice(external)
+            c = cur["targets"][l]["checks"][0]
+            bad = rng.choice(["no\n", c["exp"] + "error: quota exceeded\n", c["exp"].split("\n")[0] + "\n" if c["exp"].count("\n") > 1 else "down\n"])
+            w2 = copy.deepcopy(cur)
+            w2["targets"][l]["sets"] = [[c["flag"], bad]]
+            if rng.random() < 0.3:
+                w2["targets"][l]["nocache"] = True
+            steps.append(estep(w2, "command of %s now overwrites the state its own check tests (%s)" % (l, c["flag"])))
+            steps.append(bstep(minimal, patterns=pats(l)))
+            if rng.random() < 0.5:
+                # once more with the condition re-established from outside: the checks pass beforehand, the target runs because it
+                # was never cached / is tainted
+                steps.append(estep(w2, "establish external condition %s (raw)" % c["flag"], [[c["flag"], c["exp"]]]))
+                if rng.random() < 0.5:
+                    steps.append({"k": "taint", "patterns": [l]})
+                steps.append(bstep(minimal, patterns=pats(l)))
+            steps.append(estep(cur, "command of %s back; establish external condition %s (raw)" % (l, c["flag"]), [[c["flag"], c["exp"]]]))
+            steps.append(bstep(minimal))
+        else:
+            leaves = [l for l in order_of(cur) if is_leaf(cur, l) and cur["targets"][l]["outs"] and not cur["targets"][l].get("split")]
+            if not leaves:
+                continue
+            l = rng.choice(leaves)
+            t = cur["targets"][l]
+            o = rng.choice(t["outs"])
+            w2 = copy.deepcopy(cur)
+            w2["targets"][l]["nocache"] = True
+            w2["targets"][l]["skip"] = [o["rel"]]
+            steps.append(estep(w2, "%s becomes no-cache (nothing depends on it) and stops writing %s%s, which is deleted" %
+                               (l, "dir::" if o["dir"] else "", o["rel"]), [[H.out_path(t, o), None]]))
+            steps.append(bstep(minimal, patterns=pats(l)))
+            if rng.random() < 0.5:
+                w3 = copy.deepcopy(w2)
+                w3["targets"][l]["skip"] = []
+                steps.append(estep(w3, "%s writes all outputs again" % l))
+                cur = w3
+                steps.append(bstep(minimal))
+            else:
+                steps.append(estep(cur, "%s cached again, writes all outputs again" % l))
+                steps.append(bstep(minimal))
+    return {"ws": ws, "algo": rng.choice(["xxh3", "sha256"]), "steps": steps, "tags": ["post"] + (["minimal"] if minimal else [])}
